@@ -4,12 +4,19 @@
     shake <recvLimit> <8 hex digits>            serverHandshake on a 4-byte request
         -> reply=<hex|-> result=ok ser=<name> send=<n> recv=<n>
          | reply=<hex|-> result=error msg=<text to end of line>
+    shakebytes <recvLimit> <hex of what the client wrote before it stopped, 0..4+ bytes | ->
+        -> reply=<hex|-> closed=<0|1> result=…  AcceptRawSocket incl. a handshake cut short (same result syntax)
     chs <protocol> <recvLimit> <hex of what the server wrote, 0..4+ bytes | ->
         -> req=<hex> result=…                  (same result syntax)
     frame <sendLimit> <payload length>          sender: header only
         -> drop | hdr=<8 hex digits>
     stream <recvLimit> <hex bytes | ->          reader over a whole stream, de := identity
         -> delivered=<hex;hex;…|-> (an empty payload is `.`) nil=<k> written=<hex|-> state=<waiting:<where>|closed:<why>>
+    streameof <recvLimit> <hex bytes | ->       reader over a whole stream that then ENDS, de := identity
+        -> delivered=… nil=<k> written=… state=closed:<why>   (as `stream`; why may be eof-clean | eof-partial)
+           at=<hdr0|hdr|msg|ping|echo|pong|closed>           where the reader was when the stream ended
+           log=<text, blanks as _ | ->  cancel=<0|1>  conn=<0|1>   what recvHandler does on its way out
+                                                               (`readErrAction`; all - / 0 when at=closed)
     hashes                                      -> drift=<comma separated names|->
 
   Core-only.
@@ -60,6 +67,26 @@ def showState : RState → String
   | .closed .oversize => "closed:oversize"
   | .closed .reservedType => "closed:reserved"
   | .closed .undeserialisable => "closed:undeserialisable"
+  | .closed (.eof false) => "closed:eof-clean"
+  | .closed (.eof true) => "closed:eof-partial"
+
+/-- Which read the reader was blocked in. -/
+def showAt : RState → String
+  | .hdr0 => "hdr0"
+  | .hdr1 _ | .hdr2 _ _ | .hdr3 _ _ _ => "hdr"
+  | .body _ _ => "msg"
+  | .pbody _ _ _ _ _ => "ping"
+  | .echo _ => "echo"
+  | .discard _ => "pong"
+  | .closed _ => "closed"
+
+def showAction : Option ReadErrAction → String
+  | none => "log=- cancel=0 conn=0"
+  | some a =>
+    let l := match a.logs with
+      | none => "-"
+      | some t => t.replace " " "_"
+    s!"log={l} cancel={if a.cancelsSender then 1 else 0} conn={if a.closesConn then 1 else 0}"
 
 def answer (line : String) : String :=
   match line.splitOn " " with
@@ -68,6 +95,12 @@ def answer (line : String) : String :=
     | some r, some [b0, b1, b2, b3] =>
       let o := serverHandshake b0 b1 b2 b3 r
       s!"reply={hex (o.reply.getD [])} {showResult o.result}"
+    | _, _ => "error bad-args"
+  | ["shakebytes", r, h] =>
+    match r.toInt?, unhex h with
+    | some r, some bs =>
+      let o := acceptRawSocket r bs
+      s!"reply={hex (o.reply.getD [])} closed={if o.connClosed then 1 else 0} {showResult o.result}"
     | _, _ => "error bad-args"
   | ["chs", p, r, h] =>
     match p.toNat?, r.toInt?, unhex h with
@@ -87,6 +120,15 @@ def answer (line : String) : String :=
       let d := delivered evs
       let ds := if d.isEmpty then "-" else ";".intercalate (d.map (fun p => if p.isEmpty then "." else hex p))
       s!"delivered={ds} nil={nilCount evs} written={hex (written evs)} state={showState st}"
+    | _, _ => "error bad-args"
+  | ["streameof", rl, h] =>
+    match rl.toInt?, unhex h with
+    | some rl, some bytes =>
+      let (evs, st) := decodeStreamEOF (M := List UInt8) some rl bytes
+      let before := (decodeStream (M := List UInt8) some rl bytes).2
+      let d := delivered evs
+      let ds := if d.isEmpty then "-" else ";".intercalate (d.map (fun p => if p.isEmpty then "." else hex p))
+      s!"delivered={ds} nil={nilCount evs} written={hex (written evs)} state={showState st} at={showAt before} {showAction (readErrAction before)}"
     | _, _ => "error bad-args"
   | ["hashes"] => s!"drift={if hashDrift.isEmpty then "-" else ",".intercalate hashDrift}"
   | _ => "error unknown-op"
